@@ -42,13 +42,13 @@ FAULT_KINDS = ["abandon", "close_after_call", "short_read"]
 TIME_UNIT = "logical steps (one entry-point call or one next() on a live lazy result); the component has no clock"
 RULE = (
     "one run = 1-2 array/object documents, 1-4 queries (simple, or compound with 1-3 | and & operators) and a history of "
-    "2-12 calls over {module, environment, compiled} x {findall, finditer, match, query} x 11 document forms (incl. short-read "
+    "2-12 calls over {module, environment, compiled} x {findall, finditer, match, query} x 15 document forms (incl. white-space padded text, text streams in other encodings, short-read "
     "streams; a stream may be closed by the caller as soon as the call has returned); lazy results "
     "are advanced one match at a time in seeded interleaving with later calls, some abandoned mid-way. Non-trivial: the "
     "run used >= 2 document forms and >= 2 entry-point kinds on one (query, document) and some result was non-empty; "
     "distinct by event-log digest."
 )
-STATES_MEASURE = "distinct (entry level, method, document form, simple/compound, lazy-interleaved?) tuples (3 x 4 x 11 x 2 x 2 = 528 possible)"
+STATES_MEASURE = "distinct (entry level, method, document form, simple/compound, lazy-interleaved?) tuples (3 x 4 x 15 x 2 x 2 = 720 possible)"
 REAL = ["jsonpath package: env/compiled/module entry points, CompoundJSONPath, _data.load_data, fluent_api.Query"]
 STUB = ["SimFile single-use stream stubs (text and binary, non-seekable)", "iterator scheduler over live lazy results", "scratch real files"]
 ASSUMPTIONS = [
@@ -62,9 +62,9 @@ PROBES = ["large_document", "compound_x_stream_form", "lazy_alive_across_another
 
 LEVELS = ["module", "env", "compiled"]
 METHODS = ["findall", "finditer", "match", "query"]
-FORMS = ["value", "text_compact", "text_indent", "text_noascii", "stringio", "bytesio", "simfile_text", "simfile_bin", "realfile",
-         "trickle_text", "trickle_bin"]
-STREAM_FORMS = FORMS[4:]
+FORMS = ["value", "text_compact", "text_indent", "text_noascii", "text_ws", "stringio", "bytesio", "simfile_text", "simfile_bin", "realfile",
+         "trickle_text", "trickle_bin", "textio_latin1", "textio_utf16", "realfile_latin1"]
+STREAM_FORMS = FORMS[5:]
 
 _SCRATCH_ENV = jsonpath.JSONPathEnvironment()
 _TMP: List[str] = []
@@ -87,6 +87,14 @@ def generate(seed: int, config: str, tier: str) -> Dict[str, Any]:
         prof["lookalikes"] = False
         prof["stringy"] = False
     docs = [gen_json.gen_document(rng, prof) for _ in range(rng.randint(1, 2))]
+    if rng.random() < 0.25:
+        # non-ASCII text (what an encoding mistake would garble)
+        d0 = docs[0]
+        odd = rng.choice(["é", "naïve", "ÿ", "Ünïcödé ☃" if not want_amp else "ñ"])
+        if isinstance(d0, dict):
+            d0[rng.choice(["a", "ä", "n"])] = odd
+        else:
+            d0.append(odd)
     ctxdoc = {"a": rng.choice([1, 2, "a"]), "b": [2, 3], "x": {"y": 10}} if rng.random() < 0.4 else None
     opts = gen_query.default_opts(rng)
     if ctxdoc is not None:
@@ -139,6 +147,26 @@ def _doc_form(form: str, doc: Any, ctx: Ctx, opened: List[Any]) -> Any:
         return json.dumps(doc, indent=2)
     if form == "text_noascii":
         return json.dumps(doc, ensure_ascii=False)
+    if form == "text_ws":
+        # JSON text may be surrounded by (and contain) insignificant white space
+        return [" ", "\n", "\t \r\n", "  "][ctx.seed % 4] + json.dumps(doc, indent=1) + ["\n", " ", "\r\n"][ctx.seed % 3]
+    if form in ("textio_latin1", "textio_utf16", "realfile_latin1"):
+        # a text stream knows its own encoding; the bytes underneath are not UTF-8
+        raw = json.dumps(doc, ensure_ascii=False)
+        enc = "utf-16" if form == "textio_utf16" else "latin-1"
+        try:
+            data = raw.encode(enc)
+        except UnicodeEncodeError:
+            enc = "utf-16"
+            data = raw.encode(enc)
+        if form == "realfile_latin1":
+            path = os.path.join(_tmpdir(), f"doc{len(opened)}.json")
+            with open(path, "wb") as f:
+                f.write(data)
+            fh = open(path, "r", encoding=enc)  # noqa: SIM115
+            opened.append(fh)
+            return fh
+        return io.TextIOWrapper(io.BytesIO(data), encoding=enc)
     text = json.dumps(doc)
     if form == "stringio":
         return io.StringIO(text)
